@@ -171,7 +171,7 @@ pub fn worker(
         sink.count("units", 1);
         if let Ok(p) = std::env::var("VERIF_SLOWLOG") {
             let dt = t0.elapsed().as_secs_f64();
-            if dt > 1.0 {
+            if dt > std::env::var("VERIF_SLOWLOG_MIN").ok().and_then(|s| s.parse().ok()).unwrap_or(1.0) {
                 use std::io::Write as _;
                 if let Ok(mut f) = std::fs::OpenOptions::new().create(true).append(true).open(p) {
                     let _ = writeln!(f, "{dt:.1}s\t{}\t{}", u.key, u.cfg.label());
